@@ -1,5 +1,5 @@
 (* C14 correspondence checker *)
-From VF Require Import C14.Spec C14.Model.
+From VF Require Import C14.Spec C14.Model C14.BTreeShape.
 Local Open Scope Z_scope.
 
 Inductive kind :=
@@ -59,6 +59,10 @@ Definition model_run (k : kind) (cs : list cmd) : list mout :=
   end.
 
 Definition model_covers (k : kind) (c : cmd) : bool := true.
+
+(* the hypothesis of the B-tree theorem (C14_btree_cursor), decided on every dumped shape *)
+Definition shape_ok (k : kind) : bool :=
+  match k with KBTree r => b_ok depth_fuel r | _ => true end.
 
 Definition is_keyed (k : kind) : bool :=
   match k with KLinkedKV _ _ | KTree _ | KBTree _ => true | _ => false end.
@@ -124,7 +128,8 @@ Definition check_case (c : case) : nat :=
   let base := length (c_cmds c) in
   let r2 := scan (fun (_ : unit) e => (tt, kind_of (enum_model_ok k e) (enum_spec_ok k (c_reported c) e))) tt (c_enum c) base in
   if negb (Nat.eqb r2 0) then r2 else
-  (* the shape handed to the model must carry the reported sequence (kind 1 otherwise) *)
-  if pairs_eqb (shape_elements k) (c_reported c) then 0%nat else (base + length (c_enum c)) * 4 + 1.
+  (* the shape handed to the model must carry the reported sequence and, for a B-tree, be well formed
+     (node arities, depth, strictly ascending keys: what the theorem assumes) -- kind 1 otherwise *)
+  if pairs_eqb (shape_elements k) (c_reported c) && shape_ok k then 0%nat else (base + length (c_enum c)) * 4 + 1.
 
 Definition mismatches (cs : list case) : list (nat * nat) := find_bad check_case cs.
